@@ -7,6 +7,8 @@ import AutomataVerif.Model.NFAOps
 import AutomataVerif.Proofs.NFAElimDefs
 import AutomataVerif.Proofs.NFAOpsUnary
 
+open AV.AL
+
 namespace AV
 namespace NFA
 open AV.NFAElim
